@@ -3,6 +3,7 @@ package loader
 import (
 	"github.com/jsightapi/jsight-schema-go-library/errors"
 	"github.com/jsightapi/jsight-schema-go-library/internal/lexeme"
+	"github.com/jsightapi/jsight-schema-go-library/internal/verifhook"
 	"github.com/jsightapi/jsight-schema-go-library/notations/jschema/internal/schema"
 	"github.com/jsightapi/jsight-schema-go-library/notations/jschema/internal/schema/constraint"
 )
@@ -54,8 +55,10 @@ func (c *allOfConstraintCompiler) processSchema(schem *schema.Schema) {
 
 // processNode recursively searches and processing nodes for the "allOf" rule.
 func (c *allOfConstraintCompiler) processNode(node schema.Node) {
+	verifhook.Yield("allof.read")
 	if allOf := node.Constraint(constraint.AllOfConstraintType); allOf != nil {
 		c.extend(node, allOf.(*constraint.AllOf).SchemaNames())
+		verifhook.Yield("allof.delete")
 		node.DeleteConstraint(constraint.AllOfConstraintType)
 	}
 
@@ -116,6 +119,7 @@ func (c *allOfConstraintCompiler) extendWith(node schema.Node, name string) {
 
 	for i, childNode := range fromObject.Children() {
 		key := fromObject.Key(i)
+		verifhook.Yield("allof.add")
 		toObject.AddChild(key, childNode) // can panic ErrDuplicateKeysInSchema
 	}
 
